@@ -107,6 +107,25 @@ def sweep_shard(cells, b, p):
                     ok, nt = True, True
                 stats.case([name, ts, [str(v) for v in vals], mode], nt,
                            ("mode:" + mode, "op:" + name, "run:completed" if ok else "run:raised"), sample_cap=1)
+                # the result of the operation is USED inside the same guarded region (product, comparison):
+                # hints of the consumers are computed from the reported value, so value and wire must agree
+                if mode != "normal" and ok and len(m.vals) > len(prog["stmts"]) - 1 + 0:
+                    ng = len(mode) - 5
+                    ridx = len(args) + ng
+                    if ridx < len(m.vals) and m.types[ridx] in "IBF":
+                        prog2 = opgrid.single({"p": p, "b": b, "r": 2, "ignore": False}, name, args, mode)
+                        body = prog2["stmts"][-1]
+                        while body[0] == "guard" and body[3] and body[3][0][0] == "guard":
+                            body = body[3][0]
+                        body[3].append(["op", "mul", [ridx, ridx]])
+                        body[3].append(["op", "eq", [ridx, 0]])
+                        chk2 = Checker()
+                        try:
+                            m2 = ir.run_program(prog2, after=chk2)
+                            stats.case([name, ts, [str(v) for v in vals], mode, "used"], m2.raised is None, ("mode:" + mode + "+used",), sample_cap=1)
+                        except core.Violation as v:
+                            key = "%s.%s.%s.used" % (name, ts, mode)
+                            found.setdefault(key, {"case": prog2, "msg": v.msg, "key": key})
     stats.violations = list(found.values())
     return stats
 
@@ -189,6 +208,7 @@ def run(ctx):
     total.merge_json(core.run_shards("harness.checks.c01", "shard", shards).to_json())
     total.extra["shard_seeds"] = [s["seed"] for s in shards]
     total.extra["cell_sweep"] = {"cells": len(cells), "modes": MODES, "grids": [list(g) for g in grids]}
+    total.merge_json(core.run_shards_optimised("harness.checks.c01", "shard", [dict(seed=ctx.seed * 1000 + 800 + i, n_examples=60) for i in range(4)]).to_json())
     if ctx.tier == "thorough":
         fz, note = fuzz_campaign(ctx.seed, 20000)
         total.merge_json(fz.to_json())
